@@ -194,6 +194,10 @@ impl Watcher {
 
         let uuid = extended_appointment.uuid();
 
+        // The locator cache is locked for the rest of the request, so checking for a tracker, updating the slots and storing
+        // the appointment cannot interleave with another submission of the same appointment (which would be charged twice).
+        let locator_cache = self.locator_cache.lock().unwrap();
+
         if self.responder.has_tracker(uuid) {
             log::info!("Tracker for {uuid} already found in Responder");
             return Err(AddAppointmentFailure::AlreadyTriggered);
@@ -210,12 +214,7 @@ impl Watcher {
         // This will hang, the request will timeout but be accepted. However, the user will not be handed the receipt.
         // This could be fixed adding a thread to take care of storing while the main thread returns the receipt.
         // Not fixing this atm since working with threads that call self.method is surprisingly non-trivial.
-        match self
-            .locator_cache
-            .lock()
-            .unwrap()
-            .get(&extended_appointment.locator())
-        {
+        match locator_cache.get(&extended_appointment.locator()) {
             // Appointments that were triggered in blocks held in the cache
             Some(dispute_tx) => {
                 self.store_triggered_appointment(uuid, &extended_appointment, user_id, dispute_tx);
